@@ -84,5 +84,11 @@ func (w *Window) SetKeyCallback(cb KeyCallback) (previous KeyCallback) {
 	w.cb = cb
 	return p
 }
+// Fire delivers one key event to the window's key callback, as the real library does from PollEvents.
+func (w *Window) Fire(key Key, action Action) {
+	if w != nil && w.cb != nil {
+		w.cb(w, key, 0, action, 0)
+	}
+}
 func (w *Window) SwapBuffers()      { SwapCalls++ }
 func (w *Window) ShouldClose() bool { return CloseAfter > 0 && SwapCalls >= CloseAfter }
